@@ -6,6 +6,11 @@ small oracles written from each operation's docstring.
 
 Case kinds (the ``kind`` field of every failure input, enough to replay one case):
   meaning      one op list (1-3 ops) on one table, step-wise against the docstring oracle, + frame + n/a
+               (also: every returned frame carries fresh row labels 0..n-1, and a step of a list gives the same frame as the
+               same operation run alone on the re-labelled real intermediate table)
+               "pairs": all 64 ordered pairs of the eight operations x 2x2 small parameter sets x generated 4-6 row tables
+               with onset/duration/x/y/v columns, as ONE validated two-operation list through Dispatcher.run_operations,
+               judged step by step against the single-operation oracles; the list must run to completion
   history      one op list, 1-3 tables, one processing order through ONE Dispatcher vs. a fresh one per table
   invalid      an op list that must be rejected by RemodelerValidator with messages
   cli_invalid  the same through run_remodel.main: ValueError before anything is executed / touched
@@ -503,6 +508,14 @@ def frames_identical(a, b):
         return False
 
 
+def fresh_labels(df):
+    """the returned table is a new table: its rows are labelled 0..n-1 like those of a table just read from a file"""
+    try:
+        return list(df.index) == list(range(len(df)))
+    except Exception:
+        return False
+
+
 def outcome_js(o):
     if o[0] == "ok":
         return {"result": js_view(view(o[1]))}
@@ -555,7 +568,7 @@ def eval_meaning(payload):
     cur = df0
     for k, op in enumerate(ops0):
         exp = ORACLES[op["operation"]](view(cur), op["parameters"])
-        got = full if k == len(ops0) - 1 and len(ops0) == 1 else run_list(copy.deepcopy(ops0[:k + 1]), df0.copy(deep=True))
+        got = full if k == len(ops0) - 1 else run_list(copy.deepcopy(ops0[:k + 1]), df0.copy(deep=True))
         step_inp = dict(inp, step=k)
         if exp[0] == "unspec":
             break
@@ -574,6 +587,15 @@ def eval_meaning(payload):
                           {"result": js_view(exp[1])}))
             break
         obs = view(got[1])
+        if not fresh_labels(got[1]):
+            fails.append(("C17.frame.result_rows_labelled_0_to_n", step_inp, [str(i) for i in got[1].index][:12],
+                          "row labels 0..%d" % (len(got[1]) - 1)))
+        if k > 0:
+            # the step inside the list == the same operation alone on the (re-labelled) table the prefix really produced
+            alone = run_list([copy.deepcopy(op)], cur.reset_index(drop=True))
+            if alone[0] != "ok" or not frames_identical(alone[1].reset_index(drop=True), got[1].reset_index(drop=True)):
+                fails.append(("C17.compose.step_equals_operation_on_relabelled_intermediate", step_inp, outcome_js(got),
+                              outcome_js(alone)))
         if not compare(exp[1], exp[2], obs):
             if op["operation"] == "merge_consecutive" and mixed_text_dtypes(cur, op["parameters"]):
                 label = "C17.meaning.merge_consecutive_mixed_str_object_columns"
@@ -1148,6 +1170,71 @@ def narrow_params(name, p):
         (name == "split_rows" and any("copy_columns" not in s for s in p["new_events"].values()))
 
 
+PAIR_PARAMS = {
+    "remove_rows": [{"column_name": "x", "remove_values": ["b"]}, {"column_name": "y", "remove_values": ["b", 1]}],
+    "remove_columns": [{"column_names": ["v"], "ignore_missing": True}, {"column_names": ["y", "m"], "ignore_missing": True}],
+    "rename_columns": [{"column_mapping": {"v": "w"}, "ignore_missing": False},
+                       {"column_mapping": {"y": "q", "m": "p"}, "ignore_missing": True}],
+    "reorder_columns": [{"column_order": ["x", "onset", "duration"], "ignore_missing": True, "keep_others": True},
+                        {"column_order": ["duration", "onset", "y", "x"], "ignore_missing": True, "keep_others": False}],
+    "factor_column": [{"column_name": "x", "factor_values": ["a", "b"], "factor_names": ["fa", "fb"]},
+                      {"column_name": "y", "factor_values": ["a"], "factor_names": ["ya"]}],
+    "remap_columns": [{"source_columns": ["x"], "destination_columns": ["r"], "map_list": [["a", "A"], ["b", "B"], ["1", "C"]],
+                       "ignore_missing": True},
+                      {"source_columns": ["x", "y"], "destination_columns": ["r"],
+                       "map_list": [["a", "a", "AA"], ["a", "b", "AB"], ["b", "a", "BA"]], "ignore_missing": True}],
+    "merge_consecutive": [{"column_name": "x", "event_code": "a", "set_durations": True, "ignore_missing": True,
+                           "match_columns": ["y"]},
+                          {"column_name": "x", "event_code": "a", "set_durations": False, "ignore_missing": True,
+                           "match_columns": []}],
+    "split_rows": [{"anchor_column": "x", "remove_parent_row": False,
+                    "new_events": {"new1": {"onset_source": [0.25], "duration": [0], "copy_columns": ["y"]}}},
+                   {"anchor_column": "x", "remove_parent_row": True,
+                    "new_events": {"a": {"onset_source": ["duration"], "duration": [0.5], "copy_columns": ["y", "x"]}}}],
+}
+
+
+def pair_tables(rng, k):
+    """4-6 rows; onset increasing, numeric duration, code column x with runs of 'a' broken by 'b' rows (so that removing
+    the 'b' rows makes runs adjacent), match column y, numeric-looking column v"""
+    cols_variants = [["onset", "duration", "x", "y", "v"], ["x", "onset", "y", "duration", "v"]]
+    fixed = [
+        {"cols": cols_variants[0], "rows": [["1.0", "0.5", "a", "a", "1"], ["2.0", "0.5", "b", "a", "1"], ["3.0", "0.5", "a", "a", "n/a"],
+                                            ["4.0", "0.5", "a", "a", "1"], ["5.0", "0.5", "a", "a", "1.0"], ["6.0", "0.5", "b", "b", "a"]]},
+        {"cols": cols_variants[0], "rows": [["1", "1", "b", "b", "1"], ["2", "1", "a", "a", "1"], ["3", "2", "a", "a", "1"],
+                                            ["4.5", "1", "b", "a", "1"], ["5", "1", "a", "b", "1"], ["7", "0.5", "a", "b", "1"]]},
+    ]
+    out = [copy.deepcopy(t) for t in fixed]
+    while len(out) < k:
+        n = rng.choice((4, 5, 6))
+        cols = cols_variants[len(out) % 2]
+        t = 0.0
+        rows = []
+        for _ in range(n):
+            t += rng.choice((0.5, 1.0, 1.5))
+            r = {"onset": repr(t), "duration": rng.choice(("0.5", "1.0", "2.0")),
+                 "x": rng.choice(("a", "a", "a", "b", "n/a")), "y": rng.choice(("a", "a", "b", "n/a")),
+                 "v": rng.choice(("1", "1.0", "n/a", "a"))}
+            rows.append([r[c] for c in cols])
+        tab = {"cols": cols, "rows": rows}
+        if tab not in out:
+            out.append(tab)
+    return out
+
+
+def pair_cases(rng, n_tables):
+    tabs = pair_tables(rng, n_tables)
+    cases = []
+    for n1 in OPS8:
+        for n2 in OPS8:
+            for p1 in PAIR_PARAMS[n1]:
+                for p2 in PAIR_PARAMS[n2]:
+                    for t in tabs:
+                        cases.append({"kind": "meaning", "ops": [op_dict(n1, copy.deepcopy(p1)), op_dict(n2, copy.deepcopy(p2))],
+                                      "table": copy.deepcopy(t), "part": "pairs"})
+    return cases
+
+
 def build_cases(w):
     rng = w.rng
     quick = w.quick
@@ -1189,6 +1276,8 @@ def build_cases(w):
     for ops, t in FIXED_COMPOSED:
         cases.append({"kind": "meaning", "ops": copy.deepcopy(ops), "table": copy.deepcopy(t)})
     n_comp = len(cases) - n_single
+    cases += pair_cases(rng, 5 if quick else 24)
+    n_pairs = len(cases) - n_single - n_comp
     # ---- history
     seqs = SEQS_QUICK if quick else SEQS_ALL
     n0 = len(cases)
@@ -1224,7 +1313,7 @@ def build_cases(w):
             cases.append({"kind": "invalid", "why": why + " (first, before a valid operation)", "ops": copy.deepcopy(ops) + [copy.deepcopy(good)]})
             cases.append({"kind": "cli_invalid", "why": why + " (second, after a valid operation)", "ops": [copy.deepcopy(good)] + copy.deepcopy(ops)})
     n_inv = len(cases) - n0
-    return cases, {"param_sets": counts, "single": n_single, "composed": n_comp, "history": n_hist, "invalid": n_inv}
+    return cases, {"param_sets": counts, "single": n_single, "composed": n_comp, "pairs": n_pairs, "history": n_hist, "invalid": n_inv}
 
 
 def sig(p):
@@ -1272,6 +1361,11 @@ def run(w: Workload):
            exhaustive=False, steps_compared_with_the_oracle=dict(sorted(steps.items())))
     w.part("meaning of composed lists (2-3 ops), judged step by step on the real intermediate table", cases=info["composed"],
            bound="sampled lists x sampled tables", exhaustive=False)
+    w.part("ordered pairs of operations as one validated list through Dispatcher.run_operations", cases=info["pairs"],
+           bound="all 8x8 ordered pairs x 2x2 parameter sets x %d tables of 4-6 rows (onset, duration, code column with runs "
+                 "broken by removable rows, match column, numeric-looking column; 2 fixed + seeded); each step judged by the "
+                 "single-operation oracle on the real intermediate table, fresh row labels after every step, and step == operation "
+                 "alone on the re-labelled intermediate table" % (5 if w.quick else 24), exhaustive=False)
     w.part("history / frame: one Dispatcher, 1-3 tables, every processing order", cases=info["history"],
            bound="sequences of length <=3 over 3 tables with different column sets" + (" (8 sequences)" if w.quick else " (all 39)"),
            exhaustive=not w.quick)
